@@ -135,6 +135,84 @@ def build() -> Check:
                "the backend completed the wait, and the invocation answers PENDING with nothing left registered | " + "; ".join(f"{k}->{v}" for k, v in badw[0][1].pc)[:300]) if badw else "", cell=st)
     ck.floor("replayed_wait_suspensions", n_wait, 1)
 
+    # ... and the same clause by value. The arm that handles a recorded end is a handful of assignments; they are evaluated on a grid of clock readings with the
+    # clock, the recorded end and the duration as numbers. Expected: the earlier of the recorded end and now + duration when that lies ahead, one second from now
+    # when it has passed. (mutscan 4: `now + timedelta(seconds)` -> `now - ...`: every key the rule above reads is still there, and the branch re-looks every second)
+    from sa.common import MiniEvalUnknown, mini_eval
+    wex = pm.executors.get("WaitOperationExecutor")
+    wfn = wex.methods.get("execute") if wex is not None else None
+    if wfn is None:
+        raise AnalysisError("WaitOperationExecutor.execute not found")
+    arms = [n for n in ast.walk(wfn.node) if isinstance(n, ast.If) and any(isinstance(c, ast.Call) and ast.unparse(c.func).endswith("suspend_with_optional_resume_timestamp")
+                                                                           for b in n.body for c in ast.walk(b)) and "scheduled_end" in ast.unparse(n.test)]
+    if len(arms) == 1:
+        def run_arm(now, end, dur):
+            env = {"scheduled_end": end, "self.seconds": dur, "self._seconds": dur}
+
+            def ev(e):
+                for c in sorted([x for x in ast.walk(e) if isinstance(x, ast.Call)], key=lambda x: -len(ast.unparse(x))):
+                    pass
+                # innermost calls first
+                calls = [x for x in ast.walk(e) if isinstance(x, ast.Call)]
+                for c in reversed(calls):
+                    ft = ast.unparse(c.func)
+                    if ft.endswith(".now") or ft.endswith("utcnow"):
+                        env[ast.unparse(c)] = now
+                    elif ft.endswith("timedelta") and not c.args and len(c.keywords) == 1 and c.keywords[0].arg == "seconds":
+                        env[ast.unparse(c)] = mini_eval(c.keywords[0].value, env)
+                    elif ft in ("min", "max") and c.args and not c.keywords:
+                        env[ast.unparse(c)] = (min if ft == "min" else max)(mini_eval(a, env) for a in c.args)
+                    elif ft.endswith("suspend_with_optional_resume_timestamp"):
+                        continue
+                    else:
+                        raise MiniEvalUnknown(ast.unparse(c)[:60])
+                return mini_eval(e, env)
+
+            def run(stmts):
+                for st in stmts:
+                    if isinstance(st, ast.Assign) and len(st.targets) == 1 and isinstance(st.targets[0], ast.Name):
+                        env[st.targets[0].id] = ev(st.value)
+                    elif isinstance(st, ast.AnnAssign) and isinstance(st.target, ast.Name) and st.value is not None:
+                        env[st.target.id] = ev(st.value)
+                    elif isinstance(st, ast.If):
+                        r = run(st.body if ev(st.test) else st.orelse)
+                        if r is not None:
+                            return r
+                    elif isinstance(st, ast.Expr) and isinstance(st.value, ast.Call) and ast.unparse(st.value.func).endswith("suspend_with_optional_resume_timestamp"):
+                        a_ = st.value.args[1] if len(st.value.args) > 1 else next((k.value for k in st.value.keywords if k.arg in ("datetime_timestamp", "resume_at", "timestamp")), None)
+                        if a_ is None:
+                            raise MiniEvalUnknown("resume argument of the suspension helper")
+                        return ("at", ev(a_))
+                    elif isinstance(st, ast.Expr) and isinstance(st.value, ast.Constant):
+                        continue
+                    else:
+                        raise MiniEvalUnknown(ast.unparse(st)[:60])
+                return None
+            return run(arms[0].body)
+        wrongv = []
+        try:
+            grid = [(1000, 1030, 60), (1000, 1100, 60), (1000, 1000.5, 60), (1000, 990, 60), (1000, 1000, 60), (1000, 1002, 1), (1000, 4600, 3600)]
+            for now, end, dur in grid:
+                got = run_arm(now, end, dur)
+                ahead = min(end, now + dur)
+                if got is None:
+                    continue   # the arm falls through to the plain duration for this reading: judged by the trace rule above
+                if ahead > now:
+                    okv = got[1] == ahead
+                else:
+                    okv = now < got[1] <= now + max(1, dur)   # "in a moment": ahead of the clock, no later than a full duration
+                if not okv:
+                    wrongv.append(f"clock {now}, recorded end {end}, duration {dur}: parks until {got[1]} (expected {ahead if ahead > now else 'a moment after ' + str(now)})")
+            ck.analysed["replayed_wait_grid"] = len(grid)
+            ck.ob("R1.replayed-wait-parks-until-its-recorded-end", fn_construct(wfn), not wrongv, "; ".join(wrongv[:2]) +
+                  ": a running wait is not parked until the earlier of its recorded end and one full duration from now", cell="by value")
+        except MiniEvalUnknown as u_:
+            ck.undecided_rule(f"R1.replayed-wait-parks-until-its-recorded-end (by value): `{u_}` in WaitOperationExecutor.execute is not understood")
+        except Exception as u_:
+            ck.undecided_rule(f"R1.replayed-wait-parks-until-its-recorded-end (by value): evaluation failed ({type(u_).__name__}: {u_})")
+    else:
+        ck.undecided_rule(f"R1.replayed-wait-parks-until-its-recorded-end (by value): {len(arms)} arms of WaitOperationExecutor.execute hand a recorded end to the suspension helper")
+
     # R1 an operation that waits for ITS OWN timer (a step or wait-for-condition found PENDING, a wait found STARTED) and whose record says when that timer
     # fires never parks without a time: inside a map/parallel an untimed branch is never looked at again in this invocation; when the overdue timer fires
     # while a sibling is still running, the READY record arrives with the sibling's checkpoint, the sibling finishes, the verdict says "all parked" and the
